@@ -257,14 +257,54 @@ func CheckPanics(run *core.Run, prog *load.Program) {
 // lenOracle builds a branch oracle under the assumption len(X) <= max (X by source text),
 // or X == "" for strings when max < 0.
 func lenOracle(info *types.Info, target string, max int64) func(ast.Expr) (bool, bool) {
+	return lenOracleIn(info, nil, target, max)
+}
+
+// LenOperand returns the expression whose length e denotes: len(x) itself, or
+// a local variable defined exactly once as len(x) (e.g. `switch n := len(x); n`).
+func LenOperand(info *types.Info, scope ast.Node, e ast.Expr) (ast.Expr, bool) {
+	e = ast.Unparen(e)
+	if c, ok := e.(*ast.CallExpr); ok && len(c.Args) == 1 {
+		if id, ok := c.Fun.(*ast.Ident); ok && id.Name == "len" {
+			return c.Args[0], true
+		}
+	}
+	id, ok := e.(*ast.Ident)
+	if !ok || scope == nil {
+		return nil, false
+	}
+	v := info.ObjectOf(id)
+	if v == nil {
+		return nil, false
+	}
+	var found ast.Expr
+	n := 0
+	ast.Inspect(scope, func(x ast.Node) bool {
+		as, ok := x.(*ast.AssignStmt)
+		if !ok || len(as.Lhs) != len(as.Rhs) {
+			return true
+		}
+		for i, l := range as.Lhs {
+			if lid, ok := ast.Unparen(l).(*ast.Ident); ok && info.ObjectOf(lid) == v {
+				n++
+				if op, ok := LenOperand(info, nil, as.Rhs[i]); ok {
+					found = op
+				}
+			}
+		}
+		return true
+	})
+	if n == 1 && found != nil {
+		return found, true
+	}
+	return nil, false
+}
+
+func lenOracleIn(info *types.Info, scope ast.Node, target string, max int64) func(ast.Expr) (bool, bool) {
 	var ev func(e ast.Expr) (bool, bool)
 	lenOf := func(e ast.Expr) bool {
-		c, ok := ast.Unparen(e).(*ast.CallExpr)
-		if !ok || len(c.Args) != 1 {
-			return false
-		}
-		id, ok := c.Fun.(*ast.Ident)
-		return ok && id.Name == "len" && types.ExprString(c.Args[0]) == target
+		op, ok := LenOperand(info, scope, e)
+		return ok && types.ExprString(op) == target
 	}
 	constInt := func(e ast.Expr) (int64, bool) {
 		tv := info.Types[e]
@@ -375,7 +415,7 @@ func indexDischarged(info *types.Info, fd *ast.FuncDecl, f *cfgx.Func, x *ast.In
 		if at, isArr := info.TypeOf(x.X).Underlying().(*types.Array); isArr && c < at.Len() {
 			return true, "constant index into an array"
 		}
-		if !reachable(f, x, lenOracle(info, target, c)) {
+		if !reachable(f, x, lenOracleIn(info, fd, target, c)) {
 			return true, fmt.Sprintf("unreachable when len(%s) <= %d (dominating length guard)", target, c)
 		}
 		return false, fmt.Sprintf("no guard excludes len(%s) <= %d on every path", target, c)
@@ -484,11 +524,11 @@ func sliceDischarged(info *types.Info, fd *ast.FuncDecl, f *cfgx.Func, x *ast.Sl
 		return true, "bounds 0"
 	}
 	if b, ok := info.TypeOf(x.X).Underlying().(*types.Basic); ok && b.Info()&types.IsString != 0 && need == 1 {
-		if !reachable(f, x, lenOracle(info, target, -1)) {
+		if !reachable(f, x, lenOracleIn(info, fd, target, -1)) {
 			return true, "unreachable when " + target + " == \"\" (dominating emptiness guard)"
 		}
 	}
-	if !reachable(f, x, lenOracle(info, target, need-1)) {
+	if !reachable(f, x, lenOracleIn(info, fd, target, need-1)) {
 		return true, fmt.Sprintf("unreachable when len(%s) < %d (dominating length guard)", target, need)
 	}
 	return false, fmt.Sprintf("no guard excludes len(%s) < %d on every path", target, need)
@@ -1138,11 +1178,8 @@ func CheckLoadErrorsFatal(run *core.Run, prog *load.Program) {
 				}
 				// len(errs) ⋈ k with len >= 1 assumed
 				for _, side := range [][2]ast.Expr{{be.X, be.Y}} {
-					c, ok := ast.Unparen(side[0]).(*ast.CallExpr)
-					if !ok || len(c.Args) != 1 {
-						continue
-					}
-					if id, ok := c.Fun.(*ast.Ident); !ok || id.Name != "len" || !isErrs(c.Args[0]) {
+					op, ok := LenOperand(info, f.Decl, side[0])
+					if !ok || !isErrs(op) {
 						continue
 					}
 					tv := info.Types[side[1]]
@@ -1241,4 +1278,112 @@ func CheckLoopsPureUntilExit(run *core.Run, prog *load.Program) {
 			return true
 		})
 	})
+}
+
+// CheckRecursionFanout: inside a function that takes part in a recursion, no
+// path evaluates the same recursive call (same callee, same argument text)
+// twice — otherwise the work doubles per nesting level of the input and moq
+// does not terminate promptly on deeply nested types.
+func CheckRecursionFanout(run *core.Run, prog *load.Program) {
+	// functions in a cycle
+	inCycle := map[*types.Func]bool{}
+	for _, s := range recursionSites(prog) {
+		_ = s
+	}
+	graph := map[*types.Func][]*types.Func{}
+	funcsOf(prog, func(pkgPath string, info *types.Info, fd *ast.FuncDecl, fn *types.Func) {
+		ast.Inspect(fd.Body, func(n ast.Node) bool {
+			if call, ok := n.(*ast.CallExpr); ok {
+				if cf, ok := typeutil.Callee(info, call).(*types.Func); ok && prog.IsMoqPkg(cf.Pkg()) {
+					graph[fn] = append(graph[fn], cf.Origin())
+				}
+			}
+			return true
+		})
+	})
+	var reach func(from, to *types.Func, seen map[*types.Func]bool) bool
+	reach = func(from, to *types.Func, seen map[*types.Func]bool) bool {
+		if seen[from] {
+			return false
+		}
+		seen[from] = true
+		for _, c := range graph[from] {
+			if c == to || reach(c, to, seen) {
+				return true
+			}
+		}
+		return false
+	}
+	for fn := range graph {
+		if reach(fn, fn, map[*types.Func]bool{}) {
+			inCycle[fn] = true
+		}
+	}
+	n := 0
+	funcsOf(prog, func(pkgPath string, info *types.Info, fd *ast.FuncDecl, fn *types.Func) {
+		if !inCycle[fn] {
+			return
+		}
+		n++
+		// the function body and each function literal in it are separate control-flow graphs
+		bodies := []*ast.FuncDecl{fd}
+		ast.Inspect(fd.Body, func(x ast.Node) bool {
+			if fl, ok := x.(*ast.FuncLit); ok {
+				bodies = append(bodies, &ast.FuncDecl{Name: ast.NewIdent(fd.Name.Name + "$lit"), Type: fl.Type, Body: fl.Body})
+			}
+			return true
+		})
+		for _, b := range bodies {
+			f := cfgx.New(info, b)
+			type key struct{ callee, args string }
+			sites := map[key][]cfgx.Site{}
+			for _, s := range f.Sites() {
+				if s.InFuncLit {
+					continue
+				}
+				recursive := false
+				if s.Callee != nil && inCycle[s.Callee.Origin()] {
+					recursive = true
+				}
+				if id, ok := ast.Unparen(s.Call.Fun).(*ast.Ident); ok && s.Callee == nil {
+					if v, ok := info.ObjectOf(id).(*types.Var); ok {
+						if _, isSig := v.Type().Underlying().(*types.Signature); isSig {
+							recursive = true // a local function value of a recursive function
+						}
+					}
+				}
+				if !recursive {
+					continue
+				}
+				var as []string
+				for _, a := range s.Call.Args {
+					as = append(as, types.ExprString(a))
+				}
+				k := key{types.ExprString(s.Call.Fun), strings.Join(as, ",")}
+				sites[k] = append(sites[k], s)
+			}
+			for k, ss := range sites {
+				dup := false
+				for i, a := range ss {
+					bb, bi := a.After()
+					r := f.Explore(bb, bi, cfgx.Cuts{})
+					for j, c := range ss {
+						if i != j && r.PassedCall(c.Call) {
+							dup = true
+						}
+					}
+					// twice inside one CFG node (a + a)
+					for j, c := range ss {
+						if i < j && a.Block == c.Block && a.Index == c.Index {
+							dup = true
+						}
+					}
+				}
+				if len(ss) > 1 || dup {
+					run.Check("G-PANIC/recursion-fanout", load.FuncName(fn)+":"+k.callee+"("+k.args+")", prog.Pos(ss[0].Call.Pos()), !dup, fmt.Sprintf("%s evaluates the recursive call %s(%s) more than once on one path: the work doubles with every nesting level of the type (exponential time on deeply nested slices/maps)", load.FuncName(fn), k.callee, k.args))
+				}
+			}
+		}
+	})
+	run.Check("G-PANIC/recursion-fanout", "functions-in-cycles", "-", n >= 2, fmt.Sprintf("only %d recursive functions found", n))
 }
